@@ -49,6 +49,14 @@ case "$ID" in
       "$BIN/vcheck" NOTEXPLORED "$ID" "instrumented build failed: $(head -c 600 "$SCRATCH/build4.log")"
       exit 0
     fi
+    if [ "$ID" = C14 ]; then
+      # real net/http conformance / end-to-end program (net/http's own test hook via linkname)
+      if go build -C "$HERE" -modfile="$SCRATCH/go.mod" -ldflags=-checklinkname=0 -o "$BIN/realhttp" ./cmd/realhttp 2> "$SCRATCH/build5.log"; then
+        export VERIF_REALHTTP="$BIN/realhttp"
+      else
+        cat "$SCRATCH/build5.log" >&2
+      fi
+    fi
     "$BIN/vsched-$ID" "$ID" "$@"
     exit $? ;;
 esac
